@@ -258,6 +258,28 @@ def job(a):
     try:
         path = os.path.join(tmp, spec.get("fname", "out.fits"))
         kind = case[0]
+        if kind == "relative":
+            # a RELATIVE output name after the process changed its working directory (the package was imported elsewhere):
+            # the file the caller named is cwd/name
+            name = f"nssmc_rel_{os.getpid()}.fits"
+            cwd0 = os.getcwd()
+            status, final = run_compute(spec, os.path.join(tmp, "final.fits"), True)
+            K = len(model(spec["mode"], spec["optical"], spec["radio"])) if len(final) else 1
+            work = os.path.join(tmp, "work")
+            os.mkdir(work)
+            os.chdir(work)
+            try:
+                st = case[1]
+                status, r = run_compute(spec, name, True, stage=st)
+                kb = K if st is None else boundary_before_stage(spec["mode"], spec["optical"], spec["radio"], st)
+                out += [(c, f"relative output name, cwd changed after import: {e}", o) for c, e, o in judge_file(os.path.join(work, name), spec, kb, final)]
+            finally:
+                os.chdir(cwd0)
+                stray = os.path.join(cwd0, name)
+                if os.path.exists(stray):
+                    os.remove(stray)
+                    out.append(("file_written_where_the_caller_named_it", f"{work}/{name}", stray))
+            return out, {"K": K, "rows": len(final)}
         status, final = run_compute(spec, os.path.join(tmp, "final.fits"), True)
         if status != "ok":
             return [("unfaulted_run_completes", "ok", final)], None
@@ -376,6 +398,9 @@ def run(ctx):
         jobs.append((sp, ("crash", K // 2, False)))
         jobs.append((sp, ("stage", "radio_eas" if sp["radio"] else "optical_eas", "error")))
         jobs.append((sp, ("nowrite", None)))
+    for sp in (base[0], base[1]):
+        for st in (None, "optical_eas", "radio_eas"):
+            jobs.append((sp, ("relative", st)))
     # the command line: every combination of -w / -n, un-faulted and with a failing optical / radio stage
     for sp in (base[0], base[1]):
         for flags in ((), ("-w",), ("-n",), ("-w", "-n")):
